@@ -173,6 +173,8 @@ class SrcGen:
                 rel2, name2, _ = r.choice(libs)
                 q2 = self.qual(MOD + "/" + rel2, name2)
                 arg = q2 + "." + r.choice(["T", "N", "A", "S"])
+                if self.locals_ok and r.random() < 0.35:
+                    arg = r.choice(["LT", "LN", "*LT"])
                 if r.random() < 0.4:
                     arg = q + ".G[" + arg + "]"
                 pre = r.choice(["", "", "map[" + q + ".N]", "[]", "*"])
@@ -347,6 +349,10 @@ class SrcGen:
                             "type FB2[T interface{ Merge(T) T }] interface{ MergeAll(xs ...T) T }\n")
                 self.local_names.update({"LCmp", "FB", "FB2"})
                 ifaces.extend(r.sample(["FB", "FB2"], 1))
+            if fi == 0 and r.random() < 0.4:
+                # local types spelled like the helper packages' ones: an unqualified fallback would still compile
+                body.append("type T struct{ Local int }\ntype N int\ntype S []T\ntype A = T\n")
+                self.local_names.update({"T", "N", "S", "A"})
             if fi == 0:
                 body.append("type LT struct{ V int }\ntype LN int\ntype LG[K any] struct{ V K }\ntype LA = LT\ntype LS []LT\ntype LI0 interface{ L0() }\ntype LC interface{ ~int | ~int64 }\ntype LMC interface{ Less(LT) bool }\n")
                 if r.random() < 0.2:
